@@ -477,6 +477,8 @@ func isEndOfTerm(ps ParseState) bool {
 		return true
 	case TokenType_ELSE:
 		return true
+	case TokenType_ELIF:
+		return true
 	case TokenType_COMMA:
 		return true
 	default:
@@ -766,11 +768,30 @@ func parseIfAfterIfExpr(pExpr func(ParseState) frt.Tuple2[ParseState, Expr], pBl
 		}))
 	}), (func() frt.Tuple2[ParseState, Expr] {
 		psi2, tbody := frt.Destr2(parseInlineBlock(pExpr, ps2))
+		psn := psSkipEOL(psi2)
+		nextLine := (psCurIs(New_TokenType_EOL, psi2) && insideOffside(psn))
 		return frt.IfElse(psCurIs(New_TokenType_ELSE, psi2), (func() frt.Tuple2[ParseState, Expr] {
 			psi3, fbody := frt.Destr2(frt.Pipe(psConsume(New_TokenType_ELSE, psi2), (func(_r0 ParseState) frt.Tuple2[ParseState, Block] { return parseInlineBlock(pExpr, _r0) })))
 			return frt.Pipe(newIfElseCall(tgen, cond, tbody, fbody), (func(_r0 Expr) frt.Tuple2[ParseState, Expr] { return PairL(psi3, _r0) }))
 		}), (func() frt.Tuple2[ParseState, Expr] {
-			return frt.Pipe(newIfOnlyCall(tgen, cond, tbody), (func(_r0 Expr) frt.Tuple2[ParseState, Expr] { return PairL(psi2, _r0) }))
+			return frt.IfElse(psCurIs(New_TokenType_ELIF, psi2), (func() frt.Tuple2[ParseState, Expr] {
+				psi3, elseExpr := frt.Destr2(frt.Pipe(psConsume(New_TokenType_ELIF, psi2), recurse))
+				ebody := exprOnlyBlock(elseExpr)
+				return frt.Pipe(newIfElseCall(tgen, cond, tbody, ebody), (func(_r0 Expr) frt.Tuple2[ParseState, Expr] { return PairL(psi3, _r0) }))
+			}), (func() frt.Tuple2[ParseState, Expr] {
+				return frt.IfElse((nextLine && psCurIs(New_TokenType_ELSE, psn)), (func() frt.Tuple2[ParseState, Expr] {
+					psi3, fbody := frt.Destr2(frt.Pipe(frt.Pipe(psConsume(New_TokenType_ELSE, psn), psSkipEOL), pBlock))
+					return frt.Pipe(newIfElseCall(tgen, cond, tbody, fbody), (func(_r0 Expr) frt.Tuple2[ParseState, Expr] { return PairL(psi3, _r0) }))
+				}), (func() frt.Tuple2[ParseState, Expr] {
+					return frt.IfElse((nextLine && psCurIs(New_TokenType_ELIF, psn)), (func() frt.Tuple2[ParseState, Expr] {
+						psi3, elseExpr := frt.Destr2(frt.Pipe(psConsume(New_TokenType_ELIF, psn), recurse))
+						ebody := exprOnlyBlock(elseExpr)
+						return frt.Pipe(newIfElseCall(tgen, cond, tbody, ebody), (func(_r0 Expr) frt.Tuple2[ParseState, Expr] { return PairL(psi3, _r0) }))
+					}), (func() frt.Tuple2[ParseState, Expr] {
+						return frt.Pipe(newIfOnlyCall(tgen, cond, tbody), (func(_r0 Expr) frt.Tuple2[ParseState, Expr] { return PairL(psi2, _r0) }))
+					}))
+				}))
+			}))
 		}))
 	}))
 }
